@@ -49,7 +49,8 @@ import torch.nn as nn
 
 from ..envs import SPECS
 from ..models.decode import reference_logprobs, reference_ptrnet
-from ..policies import INFO, ZOO, DeterministicMatNetInit, build_policy, small_cfg, to_double
+from ..policies import (INFO, OPT_KEYS, ZOO, DeterministicMatNetInit, build_policy, default_env, family, resolve_setup,
+                        setup_dims, setup_events, small_cfg, to_double)
 from ..runner import Sub, h64
 
 PROPERTY = "C14"
@@ -63,7 +64,13 @@ RULE = (
     "target). Every instance is decoded at B=1, in the full batch, in the permuted chunks and next to unrelated "
     "mates. Non-trivial = some instance whose B=1 episode is fully decisive (every step gap > 1e-4 or single "
     "choice) with >= 2 multi-choice steps and that was compared in >= 3 distinct batchings including B=1; "
-    "distinct = case hash. eval_chunking: case = (am|am_pomo x tsp|cvrp|sdvrp|op, dataset size 4-12, n 4-8, seeds, "
+    "distinct = case hash. Round-3b dimensions (optional case keys; counters cfg:* / src:* / env:* / ctor:* / mode:*): "
+    "multistart_greedy also on pdp/cvrptw/pctsp/spctsp/mtsp/mtvrp and with num_starts=None (env default, 1/4); env "
+    "configuration with drawn size-neutral options, hand-built instance rows (set and mates from one drawn block), env "
+    "built for another size, env=None / by name, constructor switches of am/am_pomo/symnco incl. the library's simple "
+    "scaled-dot-product attention, mask_inner, biases, check_nan, feedforward_hidden, constructor temperature / "
+    "tanh_clipping (vf.policies.setup_dims); zoo variants polynet_matnet/atsp, l2d_stepwise/jssp|fjsp, mvmoe_k1 | "
+    "mvmoe_kall | mvmoe_enc/mtvrp, nar/tsp, MDAM with 2 or 3 paths. eval_chunking: case = (am|am_pomo x tsp|cvrp|sdvrp|op, dataset size 4-12, n 4-8, seeds, "
     "spread <= 1.75, a dividing and a non-dividing loader batch size, dataset class); non-trivial = some fully "
     "decisive instance and >= 2 loader batches with a partial last one. Decisive fractions are event counters."
 )
@@ -80,15 +87,18 @@ ASSUMPTIONS = [
     "bundled encoder/decoder modules and env.step at B=1, not DecodingStrategy)",
     "tolerances: float32 atol 1e-4 (+1e-5 relative on sums), float64 1e-9 (+1e-10 relative); rewards 1e-5 / 1e-10 "
     "relative; float32 mismatches below 1e-2 are adjudicated by the float64 re-run of the same case (policies "
-    "that hard-code float32 are judged directly at spread <= 2)",
-    "multi-start: k <= n forced start nodes 0..k-1 (tsp/atsp) or 1..k (cvrp/sdvrp), deterministic in the library",
+    "that hard-code float32 are judged directly at spread <= 2; in the multi-start layout - mvmoe variants on mtvrp - at "
+    "1e-3 for both the decisive threshold and the log-prob tolerance: 1.14e-4 measured on the unchanged tree)",
+    "multi-start: forced start nodes from the env's own deterministic rule (env.select_start_nodes, trusted: C12), k 2-3 or "
+    "the env default; every decoded batch is checked for feasible forced starts first (infeasible: the case is excluded as "
+    "C12's business); op / svrp (F17 / F18), smtwtp, mdcpdp (F45), job shops (random starts) are not decoded multi-start here",
     "environment reset/step are per-row (C04's business); every batch is reset from its own instance rows, the way "
     "a data loader would feed it",
     "MultiStageFFSPPolicy (own loop, summed log-likelihood only, decode type from test_decode_type='greedy'): random "
     "one-hot init of every stage encoder replaced by DeterministicMatNetInit (asserted); per-step gaps of the B=1 decode "
     "from vf/models/ffsp_ref.py; it collects step log-probs in a float32 buffer, so the float64 slice / adjudication "
     "compares its log-likelihood at 1e-6 instead of 1e-9 (instance norm over 2-3 machines / jobs makes float32 "
-    "adjudication frequent: ~10 % of its cases)",
+    "adjudication frequent: ~10 % of its cases; its float32 mismatches are adjudicated up to 5e-2 instead of 1e-2)",
     "MDAM's log-likelihood sums un-normalised clipped logits, so finished rows keep accumulating it while batch-mates "
     "are still decoding (genuine-defect candidate, signature ll_sum|mdam/<env>|greedy|<batching>|padded): that comparison is "
     "counted as excluded unless the signature is an open known finding or VF_C14_DEFECT_SLICES=1",
@@ -107,10 +117,18 @@ LL_CAST32 = ("matnet_ffsp",)
 NORM_KEYS = ("am", "symnco", "ham")
 MDAM_ENVS = ("tsp", "cvrp", "op", "pctsp")
 MDAM_PATHS = 3
-MULTISTART_ENVS = ("tsp", "atsp", "cvrp", "sdvrp")
+# envs whose start rule is deterministic and (on generator / lattice instances) feasible: forced starts are checked per
+# decoded batch anyway (an infeasible forced start is C12's business: the case is excluded, counted).  Not here: op / svrp
+# (start rules F17 / F18), smtwtp, mdcpdp (F45), the job shops (random starts), dpp / mdpp
+MULTISTART_ENVS = ("tsp", "atsp", "cvrp", "sdvrp", "pdp", "cvrptw", "pctsp", "spctsp", "mtsp", "mtvrp")
 ZOO14 = list(ZOO) + [("mdam", e) for e in MDAM_ENVS] + [("matnet_ffsp", "ffsp")]
 BY_DESIGN = [("mvmoe_light", "mtvrp"), ("matnet_random_init", "atsp"), ("am_trainmode_batchnorm", "tsp")]
 ADJ_CAP = 1e-2
+# MultiStageFFSPPolicy: its MatNet encoders normalise per instance over 2-3 machines / jobs, which amplifies float32
+# batch-size rounding far more than the other policies (a flipped greedy step with top-2 gap 1.06e-2 at spread 2.5 on the
+# unchanged tree, identical decodes in float64): mismatches up to 5e-2 go to the float64 adjudication run, which still
+# asserts 1e-9 / 1e-6 and therefore still shows any genuine coupling of batch rows
+ADJ_CAP_FFSP = 5e-2
 
 
 # --------------------------------------------------------------------------- strategy
@@ -132,15 +150,15 @@ def cases(draw, tier="quick"):
     n = draw(st.integers(4, 8))
     M = draw(st.integers(2, 8))
     multistart = (key != "mdam" and INFO.get(key, {}).get("multistart", False) and envn in MULTISTART_ENVS
-                  and draw(st.integers(0, 3)) == 0)
-    f64 = key not in NO_F64 and draw(st.integers(0, 7 if tier == "quick" else 2)) == 0
+                  and draw(st.integers(0, 2)) == 0)
+    f64 = family(key) not in NO_F64 and draw(st.integers(0, 7 if tier == "quick" else 2)) == 0
     if key == "mdam":
         spreads = [1.0, 1.25, 1.5]  # its tanh-clipped logits saturate (exact ties at +-10) from spread 2 on
-    elif key in NO_F64:
+    elif family(key) in NO_F64:
         spreads = [1.25, 1.5, 1.5, 2.0]
     else:
         spreads = [1.25, 1.5, 1.5, 2.0, 2.5]
-    return dict(
+    case = dict(
         zoo=[key, envn], n=n, M=M, rows=list(range(M)),
         iseed=iseed, pseed=draw(st.integers(0, 3)), spread=draw(st.sampled_from(spreads)),
         norm=draw(st.sampled_from([None, None, "instance", "layer"])) if key in NORM_KEYS else None,
@@ -153,6 +171,16 @@ def cases(draw, tier="quick"):
         mseed=mseed, n_mates=draw(st.integers(1, 4)), mate_pos=draw(st.integers(0, 4)),
         mate_target=draw(st.integers(0, 7)),
     )
+    if multistart and draw(st.integers(0, 3)) == 0:
+        case["k"] = None  # num_starts not given: the env's own number of starts (env.get_num_starts)
+    if key == "mdam":
+        case["paths"] = draw(st.sampled_from([3, 3, 2]))  # (num_paths=1 cannot decode on the pinned tree)
+    # ---- env configuration / instance source (hand-built rows for the instance set AND its mates) / env built for another
+    # size / env given by name / constructor switches of the attention-model policies (vf.policies.setup_dims)
+    if key not in ("mdam", "matnet_ffsp") and envn not in ("dpp", "mdpp"):
+        base = env_cfg(envn, n, case["variant"])
+        case.update(draw(setup_dims(key, envn, n, base, M + case["n_mates"], tier, opts=key in OPT_KEYS)))
+    return case
 
 
 def env_cfg(envn, n, variant):
@@ -189,13 +217,21 @@ def minimize(case):
     if len(rows) > 1:
         for j in range(len(rows)):
             yield {**c, "rows": rows[:j] + rows[j + 1:]}
-    if c["n"] > 4:
-        yield {**c, "n": c["n"] - 1, "k": min(c["k"], c["n"] - 1) if c["k"] else 0}
+    for key in ("lat", "ecfg", "env_shape", "env_via", "opts"):
+        if key in c and not (key == "ecfg" and "lat" in c):
+            d = {kk: vv for kk, vv in c.items() if kk != key}
+            if key == "lat":
+                d.pop("src", None)
+            yield d
+    if c["n"] > 4 and "lat" not in c:
+        yield {**c, "n": c["n"] - 1, "k": min(c["k"], c["n"] - 1) if c["k"] else c["k"]}
     for key, val in (("f64", False), ("norm", None), ("variant", 0), ("spread", 1.5), ("pseed", 0), ("n_mates", 1),
                      ("chunks", [2]), ("mate_pos", 0)):
         if c.get(key) != val:
             yield {**c, key: val}
     if c["mode"] != "greedy":
+        if c["k"] is None:
+            yield {**c, "k": 2}
         yield {**c, "mode": "greedy", "k": 0}
 
 
@@ -227,9 +263,9 @@ def watchdog(seconds=HANG_S):
 _MDAM_CACHE = OrderedDict()
 
 
-def build_mdam(envn, seed, spread, double):
+def build_mdam(envn, seed, spread, double, paths=MDAM_PATHS):
     """MDAMPolicy at toy size, initialised the way vf.policies.build_policy does it (seeded, weights x spread)."""
-    ck = (envn, int(seed), float(spread), bool(double))
+    ck = (envn, int(seed), float(spread), bool(double), int(paths))
     if ck in _MDAM_CACHE:
         p = _MDAM_CACHE[ck]
         p.eval()
@@ -238,7 +274,7 @@ def build_mdam(envn, seed, spread, double):
     state = torch.get_rng_state()
     try:
         torch.manual_seed(int(seed))
-        p = MDAMPolicy(env_name=envn, embed_dim=32, num_encoder_layers=2, num_heads=4, num_paths=MDAM_PATHS)
+        p = MDAMPolicy(env_name=envn, embed_dim=32, num_encoder_layers=2, num_heads=4, num_paths=int(paths))
         with torch.no_grad():
             for _, prm in p.named_parameters():
                 if prm.requires_grad and prm.dim() >= 2:
@@ -273,6 +309,10 @@ def mdam_spy(record):
         D.get_log_likelihood = orig
 
 
+class InfeasibleStart(Exception):
+    """A forced multistart first move is not in the reset mask of its instance (C12's business): the case is excluded."""
+
+
 class Rec:
     """What one batching returned for one instance: K rows (K = starts | MDAM paths | 1)."""
 
@@ -283,12 +323,16 @@ class Rec:
 class Runner:
     """Decodes batches of pool rows with one policy and splits the outputs per slot."""
 
-    def __init__(self, ctx, key, envn, env, policy, pool, mode, k, f64, n):
+    def __init__(self, ctx, key, envn, env, policy, pool, mode, k, f64, n, env_via="object"):
         self.ctx, self.key, self.envn, self.env, self.policy, self.pool = ctx, key, envn, env, policy, pool
-        self.mode, self.k, self.f64 = mode, int(k), f64
-        self.K = MDAM_PATHS if key == "mdam" else (self.k if mode == "multistart_greedy" else 1)
+        self.mode, self.f64 = mode, f64
+        self.k = None if k is None else int(k)  # None: num_starts not passed (the env's default number of starts)
+        self.K = int(policy.decoder.num_paths) if key == "mdam" else (self.k if mode == "multistart_greedy" else 1)
         self.max_steps = 6 * n + 40
         self.slice = f"{key}/{envn}|{mode}"
+        # what the policy is handed as env: the object, or None / the name (it then builds get_env(name) itself; self.env
+        # is the harness' own default-constructed env of that name)
+        self.env_arg = {"object": env, "none": None, "name": envn}[env_via]
 
     def reset(self, idx):
         sub = self.pool[torch.tensor(idx, dtype=torch.long)]
@@ -317,8 +361,23 @@ class Runner:
                 kw = dict(decode_type=self.mode, return_actions=True, return_sum_log_likelihood=False,
                           max_steps=self.max_steps)
                 if self.mode == "multistart_greedy":
-                    kw["num_starts"] = self.k
-                out = self.ctx.guard(self.policy, td.clone(), self.env, what=what, **kw)
+                    ks = self.k
+                    if ks is None:
+                        ks = int(self.env.get_num_starts(td))  # (trusted: C12) rows per instance of the default count
+                        if self.K is None:
+                            self.K = ks
+                        elif self.K != ks:
+                            raise RuntimeError("default number of starts differs between batches of one instance set")
+                    else:
+                        kw["num_starts"] = self.k
+                    # forced first moves must be feasible for every instance of the batch (otherwise C12's business)
+                    a0 = self.ctx.guard(self.env.select_start_nodes, td.clone(), num_starts=ks,
+                                        what=f"select_start_nodes|{self.envn}")
+                    m0 = torch.cat([td["action_mask"]] * ks, 0)
+                    if ks < 2 or a0.shape[0] != m0.shape[0] or int(a0.max()) >= m0.shape[1] or int(a0.min()) < 0 \
+                            or not bool(m0.gather(1, a0.view(-1, 1)).all()):
+                        raise InfeasibleStart()
+                out = self.ctx.guard(self.policy, td.clone(), self.env_arg, what=what, **kw)
         self.policy.eval()  # (the pointer network switches its own mode from `phase`)
         return self.split(out, B, bl, rec_mdam), td, out, rec_mdam
 
@@ -386,7 +445,7 @@ class Runner:
                            f"(all actions inside the mask: {bool(ref.in_mask.all())})")
             return [T], [ref.gap[0]], [ref.nfeas[0]]
         ms = self.mode == "multistart_greedy"
-        ref = self.ctx.guard(reference_logprobs, self.policy, self.env, td_solo, A, num_starts=self.k if ms else 0,
+        ref = self.ctx.guard(reference_logprobs, self.policy, self.env, td_solo, A, num_starts=self.K if ms else 0,
                              forced_first=ms, what=f"reference_loop|{self.slice}|B=1")
         T = A.shape[1]
         Ls = [min(int(x), T) for x in ref.done_at.tolist()]
@@ -402,15 +461,19 @@ class Issue:
         self.sig, self.msg, self.detail, self.soft = sig, msg, detail, soft
 
 
-def compare(solo, Ls, gaps, rec, slice_, label, f64, issues, where, ll_cast32=False):
+def compare(solo, Ls, gaps, rec, slice_, label, f64, issues, where, ll_cast32=False, loose32=False):
     """Compare one batching's record of an instance with its B=1 record (argmax-stability rule).
-    Returns (rows compared on a fully decisive episode)."""
-    thr = 1e-8 if f64 else 1e-4
-    atol, rtol = (1e-9, 1e-10) if f64 else (1e-4, 1e-5)
+    Returns (rows compared on a fully decisive episode).
+    loose32: float32 run of a policy that cannot be adjudicated in float64 (hard-coded float32 inside) decoded in the
+    multi-start layout: the [batch, starts] regrouping is a second layout change on top of the batch size, float32 noise
+    was measured at 1.14e-4 on the MoE decoder at spread 2 (unchanged tree) -> decisive threshold and tolerance 1e-3
+    (the cross-layout figure of C11; a coupling of batch rows is O(1e-2..1))."""
+    thr = 1e-8 if f64 else (1e-3 if loose32 else 1e-4)
+    atol, rtol = (1e-9, 1e-10) if f64 else ((1e-3, 1e-5) if loose32 else (1e-4, 1e-5))
     if f64 and ll_cast32:
         atol, rtol = 1e-6, 1e-6
     rrel = 1e-10 if f64 else 1e-5
-    cap = 0.0 if f64 else ADJ_CAP
+    cap = 0.0 if f64 else (ADJ_CAP_FFSP if ll_cast32 else ADJ_CAP)
     for r in range(len(Ls)):
         L = Ls[r]
         gap = gaps[r]
@@ -490,13 +553,14 @@ def settle(case, ctx, issues, execute_fn, can_f64):
 # --------------------------------------------------------------------------- batchings
 def make_policy(key, envn, env, case, f64):
     if key == "mdam":
-        return build_mdam(envn, case["pseed"], case["spread"], f64)
+        return build_mdam(envn, case["pseed"], case["spread"], f64, int(case.get("paths", MDAM_PATHS)))
     logging.disable(logging.ERROR)  # MatNetPolicy logs its (toy-size) kwargs as "unused" at construction
     try:
-        policy = build_policy(key, envn, env, seed=case["pseed"], spread=case["spread"], double=f64, norm=case.get("norm"))
+        policy = build_policy(key, envn, env, seed=case["pseed"], spread=case["spread"], double=f64, norm=case.get("norm"),
+                              opts=case.get("opts"))
     finally:
         logging.disable(logging.NOTSET)
-    if key == "matnet":
+    if key in ("matnet", "matnet_ctx", "polynet_matnet"):
         assert isinstance(policy.encoder.init_embedding, DeterministicMatNetInit), "deterministic MatNet init missing"
     if key == "matnet_ffsp":
         assert all(isinstance(e.init_embedding, DeterministicMatNetInit) for e in policy.encoders), \
@@ -521,36 +585,51 @@ def execute(case, ctx, adjudication=False):
         ctx.exclude(f"by_design:{key}")
         return
     f64 = bool(case["f64"])
-    mode, k = case["mode"], int(case["k"])
+    mode, k = case["mode"], (None if case["k"] is None else int(case["k"]))
     slice_ = f"{key}/{envn}|{mode}"
     if not adjudication:
         ctx.event(f"zoo:{key}/{envn}")
         ctx.event(f"mode:{mode}")
+        if mode != "greedy":
+            ctx.event(f"mode:{mode}|{envn}" + ("|default_num_starts" if k is None else ""))
         ctx.event("float64" if f64 else "float32")
     try:
         with watchdog():
             _run(case, ctx, adjudication, key, envn, f64, mode, k, slice_)
+    except InfeasibleStart:
+        ctx.exclude("forced_start_infeasible(C12)")
     except Hang:
         ctx.violation(f"hang|{slice_}", f"a policy call did not return within {HANG_S}s at toy size")
 
 
 def _run(case, ctx, adjudication, key, envn, f64, mode, k, slice_):
-    cfg = env_cfg(envn, case["n"], case["variant"])
+    cfg, mkw = resolve_setup(case, env_cfg(envn, case["n"], case["variant"]))
+    if envn == "pdp" and mode != "greedy":
+        cfg = dict(cfg, force_start=False)  # pickups can only be forced first moves with a free start
     spec = SPECS[envn]
-    env = spec.env(cfg)
+    env_via = mkw["env_via"]
+    env = spec.env(dict(cfg, **mkw["env_shape"]) if mkw["env_shape"] else cfg) if env_via == "object" else default_env(envn)
+    if not adjudication:
+        setup_events(ctx, case, envn, cfg)
     M = int(case["M"])
     rows = [int(r) for r in case["rows"]]
-    state = torch.get_rng_state()
-    inst = ctx.guard(spec.gen, cfg, M, case["iseed"], what=f"instance|{envn}")
     nm = int(case["n_mates"])
-    mates = ctx.guard(spec.gen, cfg, nm, case["mseed"], what=f"instance|{envn}")
+    state = torch.get_rng_state()
+    if mkw["src"] != "gen" and mkw["lat"] is not None:
+        # hand-built rows: one drawn block of M + n_mates rows, the first M are the instance set, the rest the mates
+        both = ctx.guard(spec.instance, {"env": envn, "cfg": cfg, "B": M + nm, "src": mkw["src"], "seed": case["iseed"],
+                                         "lat": mkw["lat"]}, what=f"instance|{envn}")
+        inst, mates = both[:M], both[M:M + nm]
+    else:
+        inst = ctx.guard(spec.gen, cfg, M, case["iseed"], what=f"instance|{envn}")
+        mates = ctx.guard(spec.gen, cfg, nm, case["mseed"], what=f"instance|{envn}")
     torch.set_rng_state(state)
     same_shape = set(inst.keys()) == set(mates.keys()) and all(inst[kk].shape[1:] == mates[kk].shape[1:]
                                                                and inst[kk].dtype == mates[kk].dtype for kk in inst.keys())
     pool = torch.cat([inst, mates], 0) if same_shape else inst
     policy = make_policy(key, envn, env, case, f64)
     policy.eval()
-    run = Runner(ctx, key, envn, env, policy, pool, mode, k, f64, case["n"])
+    run = Runner(ctx, key, envn, env, policy, pool, mode, k, f64, case["n"], env_via)
 
     # ---- (a) one by one: the reference answers
     solo, refs = {}, {}
@@ -583,11 +662,12 @@ def _run(case, ctx, adjudication, key, envn, f64, mode, k, slice_):
                     continue
                 Ls, gaps, _ = refs[i]
                 compare(solo[i], Ls, gaps, recs[p], slice_, label, f64, issues,
-                        f"instance {i} at position {p} of batch {idx}", ll_cast32=key in LL_CAST32)
+                        f"instance {i} at position {p} of batch {idx}", ll_cast32=key in LL_CAST32,
+                        loose32=(not f64 and mode != "greedy" and family(key) in NO_F64))
                 seen[i].add(tuple(idx))
                 if any(recs[p].actions[r].shape[0] > Ls[r] for r in range(len(Ls))):
                     padded_rows += 1
-    if settle(case, ctx, issues, execute, can_f64=(not f64 and key not in NO_F64)):
+    if settle(case, ctx, issues, execute, can_f64=(not f64 and family(key) not in NO_F64)):
         return
     if adjudication:
         return
@@ -734,7 +814,9 @@ def preimport():
 
 
 SUBS = [
-    Sub("batchings", execute, strategy=lambda tier: cases(tier), budget={"quick": 640, "thorough": 8000}, shards=16,
+    # quick budget 592 (was 640): the round-3b dimensions (default-count multi-start rows, wait-allowed job shops, policy
+    # variants) cost ~30 % more CPU per case set; rebalanced to stay within +25 % of the previous quick tier
+    Sub("batchings", execute, strategy=lambda tier: cases(tier), budget={"quick": 592, "thorough": 8000}, shards=16,
         shrink=False, minimize=minimize, weight=2.0),
     Sub("eval_chunking", execute_eval, strategy=lambda tier: eval_cases(tier), budget={"quick": 128, "thorough": 1600},
         shards=8, shrink=False, minimize=eval_minimize),
